@@ -152,3 +152,32 @@ package keystore
 //@   modifies bmap(b)
 //@   ensures result != nil ==> bsame(b)
 //@   at "return b.Put(key, pubKey)" assert[C12] len(key) == 8 && le32(key, 0) == branch && le32(key, 4) == index
+
+// ---- C19/C08: representation invariant of the keystore manager -- the keystore in use is one of the managed ones.
+// DeleteKeystore keeps it (the removed keystore is not "in use" afterwards); the in-current lookups rely on it when
+// they index the managed map with the current keystore's name.
+//@ define kmWF(km) = (km != nil && (km.currentKeystore != nil ==> has(km.managedKeystores, km.currentKeystore.accountName) && km.managedKeystores[km.currentKeystore.accountName] != nil))
+//@ func (*KeystoreManager).DeleteKeystore
+//@   props C19 C08
+//@   nopanic off
+//@   requires km != nil
+//@   modifies *
+//@   only nothing
+//@   ensures[C19,C08] result0 ==> km.currentKeystore == nil || km.currentKeystore.accountName != accountID
+//@ func (*KeystoreManager).GetManagedAddressByScriptHashInCurrent
+//@   props C19
+//@   requires kmWF(km) && km.params != nil
+//@   modifies *
+
+// ---- C13: the checksum bits appended to an entropy are bits of SHA-256 of the entropy AS GIVEN -- all of its bytes,
+// leading zero bytes included (big.Int.Bytes() would drop them)
+//@ func computeChecksum
+//@   trusted
+//@   pure
+//@   ensures len(result) == 32 && fresh(result) && strOf(result) == ghosts("sha256", strOf(data))
+//@ func addChecksum
+//@   props C13
+//@   nopanic off
+//@   modifies *
+//@   only computeChecksum
+//@   at "firstChecksumByte := hash[0]" assert[C13] strOf(hash) == ghosts("sha256", strOf(data))
